@@ -333,7 +333,7 @@ func runC14(c *fw.Ctx) {
 					if ch == 1 && (pad != 255 || (cl != "accepted" && cl != "empty-data")) {
 						continue // one-byte chunks only with padding (volume per frame stays useful)
 					}
-					if ch+max(pad, 0)+1 > 16384 {
+					if pad >= 0 && ch+pad+1 > 16384 {
 						continue
 					}
 					if item++; !c.Mine(item) {
